@@ -245,7 +245,8 @@ func VerifC01Mask() {
 // symbolic; for every event: a monitor is returned iff the reference set is non-empty, and exactly the
 // reference rules ran, once each - whatever was added before (trigger cache).
 func VerifC01History() {
-	rules := c01MakeRules(zz.Param("R", 2), 1, zz.Param("S", 2), false)
+	withState := zz.Param("STATE", 0) == 1
+	rules := c01MakeRules(zz.Param("R", 2), 1, zz.Param("S", 2), withState)
 	p := NewProcessor(1)
 	counts := make([]int, len(rules))
 	for i, cr := range rules {
@@ -261,7 +262,7 @@ func VerifC01History() {
 	for k := 0; k < n; k++ {
 		nb := zz.Bytes("name"+c01Lbl[k], 1)
 		zz.Assume(zz.OneOf(nb[0], "12"))
-		ev, kind, state := c01Event("n"+string(nb), "ev"+c01Lbl[k], zz.Param("S", 2), false)
+		ev, kind, state := c01Event("n"+string(nb), "ev"+c01Lbl[k], zz.Param("S", 2), withState)
 		for i := range counts {
 			counts[i] = 0
 		}
